@@ -1,7 +1,7 @@
 #!/bin/sh
 # runs every registered quick command in turn and validates the evidence files (used before committing evidence)
 cd /verif
-for P in C01 C02 C03 C04 C05 C06 C07 C08 C09 C10 C11 C12 C14 C15 C16 C17 C18 C19 C20; do
+for P in C01 C02 C03 C04 C05 C06 C07 C08 C09 C10 C11 C12 C13 C14 C15 C16 C17 C18 C19 C20; do
   S=$(date +%s)
   ./check $P --tier quick > /tmp/quick_$P.log 2>&1; RC=$?
   E=$(date +%s)
